@@ -86,7 +86,7 @@ type machine struct {
 	trace []string
 
 	steps, aliased, failedLive, uninitOps, mutations, keyUseAfterMutation int
-	rr                                                                     int
+	rr                                                                    int
 }
 
 func (m *machine) log(f string, a ...any) {
@@ -178,7 +178,7 @@ func badEncoding(t *rapid.T, p ref.Pt) ([]byte, string) {
 	if p.Inf {
 		p = ref.G()
 	}
-	kind := rapid.SampledFrom([]string{"y+1", "prefix", "truncate", "extend", "x>=p", "nonresidue-x", "empty", "hybrid", "identity-padded", "wrong-parity-len"}).Draw(t, "bad")
+	kind := gen.Sampled([]string{"y+1", "prefix", "truncate", "extend", "x>=p", "nonresidue-x", "empty", "hybrid", "identity-padded", "wrong-parity-len"}).Draw(t, "bad")
 	u, c := p.Uncompressed(), p.Compressed()
 	switch kind {
 	case "y+1":
@@ -186,7 +186,7 @@ func badEncoding(t *rapid.T, p ref.Pt) ([]byte, string) {
 		return append(append([]byte{4}, ref.B32(p.X)...), ref.B32(y)...), kind
 	case "prefix":
 		b := append([]byte(nil), u...)
-		b[0] = rapid.SampledFrom([]byte{0, 1, 2, 3, 5, 8, 0xff}).Draw(t, "pfx")
+		b[0] = gen.Sampled([]byte{0, 1, 2, 3, 5, 8, 0xff}).Draw(t, "pfx")
 		return b, kind
 	case "truncate":
 		return append([]byte(nil), u[:rapid.IntRange(1, 64).Draw(t, "cut")]...), kind
@@ -643,7 +643,7 @@ func propMachine(t *rapid.T) {
 		"decode-valid": func(t *rapid.T) {
 			r := m.pslot("r")
 			p := gen.Point(t, "P").P
-			how := rapid.SampledFrom([]string{"SetBytes/compressed", "SetBytes/uncompressed", "SetCompressedBytes", "SetUncompressedBytes", "NewPointFromBytes", "NewPointFromCoords"}).Draw(t, "how")
+			how := gen.Sampled([]string{"SetBytes/compressed", "SetBytes/uncompressed", "SetCompressedBytes", "SetUncompressedBytes", "NewPointFromBytes", "NewPointFromCoords"}).Draw(t, "how")
 			m.log("decode-valid r%d %s %v", r, how, p)
 			var got *secp256k1.Point
 			var err error
@@ -694,7 +694,7 @@ func propMachine(t *rapid.T) {
 		"decode-invalid": func(t *rapid.T) {
 			r := m.pslot("r")
 			bad, kind := badEncoding(t, gen.Point(t, "P").P)
-			how := rapid.SampledFrom([]string{"SetBytes", "SetCompressedBytes", "SetUncompressedBytes"}).Draw(t, "how")
+			how := gen.Sampled([]string{"SetBytes", "SetCompressedBytes", "SetUncompressedBytes"}).Draw(t, "how")
 			m.log("decode-invalid r%d %s %s %x", r, how, kind, bad)
 			m.failingPointCall(how+"("+kind+")", r, func() (*secp256k1.Point, error) {
 				switch how {
@@ -780,7 +780,7 @@ func propMachine(t *rapid.T) {
 		// ---------------- scalars ----------------
 		"scalar-binop": func(t *rapid.T) {
 			r, a, b := m.sslot("r"), m.sslot("a"), m.sslot("b")
-			op := rapid.SampledFrom([]string{"add", "sub", "mul"}).Draw(t, "op")
+			op := gen.Sampled([]string{"add", "sub", "mul"}).Draw(t, "op")
 			m.log("scalar %s r%d a%d b%d", op, r, a, b)
 			if r == a || r == b || a == b {
 				m.aliased++
@@ -801,7 +801,7 @@ func propMachine(t *rapid.T) {
 		},
 		"scalar-unop": func(t *rapid.T) {
 			r, a := m.sslot("r"), m.sslot("a")
-			op := rapid.SampledFrom([]string{"neg", "square", "invert", "set", "condneg", "newfrom"}).Draw(t, "op")
+			op := gen.Sampled([]string{"neg", "square", "invert", "set", "condneg", "newfrom"}).Draw(t, "op")
 			ctrl := gen.Ctrl(t, "ctrl")
 			m.log("scalar %s r%d a%d ctrl=%x", op, r, a, ctrl)
 			if r == a {
@@ -913,7 +913,7 @@ func propMachine(t *rapid.T) {
 		},
 		// ---------------- keys ----------------
 		"newpriv-bytes": func(t *rapid.T) {
-			kind := rapid.SampledFrom([]string{"valid", "valid", "valid", "zero", "n", "n+1", "max", "short", "long"}).Draw(t, "kind")
+			kind := gen.Sampled([]string{"valid", "valid", "valid", "zero", "n", "n+1", "max", "short", "long"}).Draw(t, "kind")
 			d := gen.NonZero256(t, ref.N, "d")
 			var raw []byte
 			switch kind {
@@ -1056,7 +1056,7 @@ func propMachine(t *rapid.T) {
 		},
 		"newpub-bytes": func(t *rapid.T) {
 			p := gen.NonIdentityPoint(t, "P").P
-			how := rapid.SampledFrom([]string{"compressed", "uncompressed", "spki", "schnorr-x", "invalid", "identity", "schnorr-invalid"}).Draw(t, "how")
+			how := gen.Sampled([]string{"compressed", "uncompressed", "spki", "schnorr-x", "invalid", "identity", "schnorr-invalid"}).Draw(t, "how")
 			m.log("newpub-bytes %s %v", how, p)
 			var src []byte
 			switch how {
@@ -1135,7 +1135,7 @@ func propMachine(t *rapid.T) {
 			i := rapid.IntRange(0, len(m.privs)-1).Draw(t, "priv")
 			digest := gen.Bytes(t, 32, 32, "digest")
 			ent := gen.Bytes(t, 32, 32, "entropy")
-			enc := rapid.SampledFrom([]secec.SignatureEncoding{secec.EncodingASN1, secec.EncodingCompact, secec.EncodingCompactRecoverable}).Draw(t, "enc")
+			enc := gen.Sampled([]secec.SignatureEncoding{secec.EncodingASN1, secec.EncodingCompact, secec.EncodingCompactRecoverable}).Draw(t, "enc")
 			m.log("sign-verify priv%d enc%d", i, enc)
 			e := m.privs[i]
 			opts := &secec.ECDSAOptions{Hash: crypto.SHA256, Encoding: enc, SelfVerify: rapid.Bool().Draw(t, "selfverify")}
